@@ -85,7 +85,8 @@ def main(tier, replay):
         "FORCED per world and seed (round 3): 18 three-step histories — compute with the cache on; switch off with set_cache_enabled / the parsed "
         "keyword; change the activity or the attenuation image (new object / in place + same pointer / by file name; scatter points derived or "
         "given again, so that the arrays keep their size); [set_up; compute without cache;] switch on; set_up; compute; for half of them the same "
-        "backwards — plus the switch with nothing changed, with a same-size template / same-count scatter-point image changed meanwhile, and "
+        "backwards — plus the switch with nothing changed (also WITHOUT set_up after switching on again: the arrays survive set_cache_enabled, which is what "
+        "distinguishes it from set_use_cache; kind `strict`, outside both Lean guards), with a same-size template / same-count scatter-point image changed meanwhile, and "
         "with set_use_cache: EVERY result bitwise == fresh object with the same settings AND == fresh object with the OPPOSITE cache setting "
         "(`cache-flipped-oracle`, also on a quarter of the random histories), and == Lean state machine under the weaker guard of `runGuarded2` "
         "(kind `clean2`: enabling the cache on a set-up object is admitted when the next operation is set_up; all random clean histories use it). "
